@@ -18,7 +18,7 @@ def main(tier_):
     # mechanism-removal variants of the design (vacuity guard): each switch off must make TLC violate C01's invariants
     variants = {}
     base_cfg = open(os.path.join(SPEC, "MC_C01_quick.cfg")).read().replace("EmitCases = TRUE", "EmitCases = FALSE").replace(" CaseOut", "")
-    for mech in ("ClampDotDot", "RestartAbsAtRoot", "NoFollowOnOpen", "EmptyPathIsENOENT"):
+    for mech in ("ClampDotDot", "RestartAbsAtRoot", "NoFollowOnOpen", "EmptyPathIsENOENT", "TrailingSlashIsDirTest"):
         cfgp = os.path.join(workdir(), "C01-no-%s.cfg" % mech)
         open(cfgp, "w").write(base_cfg.replace("%s = TRUE" % mech, "%s = FALSE" % mech))
         variants[mech] = run_tlc("MC_Lookup.tla", cfgp, workers=8, timeout=900)["violated"]
